@@ -403,7 +403,7 @@ def molecule_plan(chk: Check):
     wt = lambda kind="rhf", trial="rhf": "uhf" if kind == "uhf" else ("rhf" if trial == "cisd" else str(rng.choice(WALKERS)))
     max_frozen = {"LiH": 1, "H4": 1, "H6": 2, "OH": 2}        # doubly occupied and 2*n_frozen < nelectron
     nfz = lambda m: int(rng.integers(1, max_frozen[m] + 1))
-    for _ in range(5):
+    for _ in range(10):
         add("rhf", str(rng.choice(["H2", "H4", "H4ring", "H6", "H6ring", "LiH"])), basis=bas(), chol_cut=cut(), walker_type=wt(),
             trial=str(rng.choice(["rhf", "uhf"])))
         m = str(rng.choice(["LiH", "H4", "H6"]))
